@@ -50,12 +50,17 @@ func checkC06(w *World, tier string) *Report {
 	r.Explanation = "Path rules on the control-flow graph of (*EVM).Call (and the gas rule on all five frame entry points): " +
 		"R6.1 reaching definitions along every path: the callee's gas argument on paths through the pre-call join point is defined only by gas = <pre>.Gas; the gas argument of the post-call join point only by gas = contract.Gas; the gas returned after the post-call join point only by gas = <post>.Gas or the zeroing arm; " +
 		"R6.2 every error return reachable from the snapshot returns literal 0 gas, a gas variable zeroed on that path, or an error known to be ErrExecutionReverted on that path; " +
+		"R4.4 whenever a join-point result reports an error the frame's returned error is that error or ErrOutOfGas (never nil, never the callee's own error), so that the forfeit rule R6.2 applies to it; the frame the interpreter runs is constructed after the pre-call join point (R6.1 callee-frame); " +
 		"R6.3 on each join-point error path the returned error has a definition from the package variable ErrOutOfGas under a condition comparing the join point's error text with ErrOutOfGas's. Does not decide that a frame never returns more gas than given (depends on the number the Aspect runtime reports)."
 	emitReturnRule(w, r, "R6.2", nil)
 	emitReturnRule(w, r, "R6.1", func(fn string) bool { return fn == "(*EVM).Call" })
 	emitSiteRule(w, r, "R6.1")
+	// a failed join point surfaces as the frame's error (its own error or ErrOutOfGas), so that R6.2's
+	// forfeit rule applies to it; otherwise a callee revert could mask the failure and keep the gas
+	emitReturnRule(w, r, "R4.4", func(fn string) bool { return fn == "(*EVM).Call" })
 	r.need("R6.2", 6)
-	r.need("R6.1", 3)
+	r.need("R6.1", 4)
+	r.need("R4.4", 2)
 	addR63(w, r)
 	r.Assumptions = append(r.Assumptions, "the Aspect runtime reports a leftover gas not larger than the gas it was given", "package-level Err* variables are non-nil")
 	return r
